@@ -505,7 +505,7 @@ Section Screen.
     - split; [|reflexivity]. exists tg. repeat (split; [assumption|]). exists L, K, F. repeat split; try assumption; apply Hcur.
     - rewrite (N.eqb_sym idx first). destruct (N.eqb_spec first idx) as [->|Hne]; cbn [negb].
       + (* at the head: Keep *)
-        rewrite N.eqb_refl. unfold ms_width. rewrite Ht. cbn [target_n target_adjust_keep].
+        unfold ms_width. rewrite Ht. cbn [target_n target_adjust_keep].
         set (lc := N.min (member_vlc (nthN (ms_members m) idx member_default) W) (tt_n tg)).
         match goal with |- context [ms_remove_idx ?m0 idx] => set (m0' := m0);
           destruct (remove_idx_other m0' idx) as (Ea & Eor & Ez & Et) end.
@@ -524,7 +524,6 @@ Section Screen.
         replace (tt_n tg - lc + (ms_zombie_lines m + lc)) with (tt_n tg + ms_zombie_lines m) by (unfold lc; lia).
         exact Hcur.
       + (* behind the head: only the flag *)
-        rewrite (proj2 (N.eqb_neq idx first)) by congruence.
         split; [|reflexivity].
         exists tg. split; [exact Ht|]. split; [exact Hal|]. split; [exact Hma|]. split; [exact Horph|].
         split.
@@ -532,3 +531,367 @@ Section Screen.
           eapply members_bars_upd; [exact Hmb | | reflexivity]. intros x ls Hx. left. exact Hx. }
         exists L, K, F. repeat split; try assumption; apply Hcur.
   Qed.
+
+  (* ---------------------------------------------------------------- the calls that do not draw *)
+  Lemma members_bars_In m :
+    members_bars m <->
+    (forall mem, In mem (ms_members m) -> forall ls, m_lines mem = Some ls -> Forall (fun l => is_bar l = true) ls).
+  Proof.
+    unfold members_bars, nthN. split.
+    - intros Hm mem Hin ls Hls. destruct (In_nth _ _ member_default Hin) as (n & Hnlt & Hnth).
+      apply (Hm (N.of_nat n) ls). rewrite Nat2N.id, Hnth. exact Hls.
+    - intros Hm i ls Hls.
+      destruct (nth_in_or_default (N.to_nat i) (ms_members m) member_default) as [Hin|Hd].
+      + exact (Hm _ Hin ls Hls).
+      + rewrite Hd in Hls. discriminate.
+  Qed.
+
+  Lemma AInv_core m m' t g :
+    AInv m t g -> ms_target m' = ms_target m -> ms_align m' = ms_align m ->
+    ms_zombie_lines m' = ms_zombie_lines m ->
+    Forall (fun l => is_bar l = false) (ms_orphans m') -> members_bars m' -> AInv m' t g.
+  Proof.
+    intros (tg & Ht & Hal & Hma & Horph & Hmb & L & K & F & Hr & HL & HK & HF & HlF & HlK & Hreach & Hcur) Et Ea Ez Ho Hm.
+    exists tg. split; [congruence|]. split; [exact Hal|]. split; [congruence|]. split; [exact Ho|].
+    split; [exact Hm|]. exists L, K, F. rewrite Ez. repeat split; try assumption; apply Hcur.
+  Qed.
+
+  Lemma store_inv m t g idx texts bars :
+    AInv m t g -> Forall (fun l => is_bar l = false) texts -> Forall (fun l => is_bar l = true) bars ->
+    AInv (ms_store m idx texts bars) t g.
+  Proof.
+    intros Hinv Htx Hbs. pose proof Hinv as (tg & _ & _ & _ & Horph & Hmb & _).
+    apply (AInv_core m _ t g Hinv); try reflexivity.
+    - cbn. apply Forall_app. split; assumption.
+    - unfold members_bars, ms_store. cbn [ms_members set_ms_orphans set_ms_members].
+      eapply members_bars_upd; [exact Hmb | | reflexivity].
+      intros x ls Hx. cbn in Hx. injection Hx as <-. right. exact Hbs.
+  Qed.
+
+  Lemma remove_inv m t g idx : AInv m t g -> AInv (ms_remove_idx m idx) t g.
+  Proof.
+    intros Hinv. pose proof Hinv as (tg & _ & _ & _ & Horph & Hmb & _).
+    destruct (remove_idx_other m idx) as (Ea & Eo & Ez & Et).
+    apply (AInv_core m _ t g Hinv); try assumption.
+    - rewrite Eo. exact Horph.
+    - apply members_bars_remove. exact Hmb.
+  Qed.
+
+  Lemma insert_inv m t g loc m1 idx : AInv m t g -> ms_insert m loc = Some (m1, idx) -> AInv m1 t g.
+  Proof.
+    intros Hinv Hi. pose proof Hinv as (tg & _ & _ & _ & Horph & Hmb & _).
+    unfold ms_insert in Hi.
+    set (p := match ms_free m with
+              | i :: fr => (set_ms_free (set_ms_members m (updN (ms_members m) (N.to_nat i) (fun _ => member_default))) fr, i)
+              | [] => (set_ms_members m (ms_members m ++ [member_default]), N.of_nat (length (ms_members m)))
+              end) in Hi.
+    assert (Hp : ms_target (fst p) = ms_target m /\ ms_align (fst p) = ms_align m
+                 /\ ms_zombie_lines (fst p) = ms_zombie_lines m /\ ms_orphans (fst p) = ms_orphans m
+                 /\ members_bars (fst p)).
+    { unfold p. destruct (ms_free m) as [|i fr]; cbn [fst]; repeat split; try reflexivity.
+      - apply members_bars_In. cbn [ms_members set_ms_members]. intros mem Hin ls Hls.
+        apply in_app_or in Hin. destruct Hin as [Hin|[<-|[]]]; [|discriminate].
+        exact (proj1 (members_bars_In m) Hmb mem Hin ls Hls).
+      - unfold members_bars. cbn [ms_members set_ms_members set_ms_free].
+        eapply members_bars_upd; [exact Hmb | | reflexivity]. intros x ls Hx. discriminate. }
+    destruct p as [m0 i0]. cbn [fst] in Hp. destruct Hp as (Et & Ea & Ez & Eo & Hm0).
+    assert (Hgoal : forall ord, AInv (set_ms_order m0 ord) t g).
+    { intros ord. apply (AInv_core m _ t g Hinv); try assumption. cbn. rewrite Eo. exact Horph. }
+    destruct loc as [|p0|p0|r|r]; try (injection Hi as <- _; apply Hgoal).
+    - destruct (posN r (ms_order m0)); [injection Hi as <- _; apply Hgoal | discriminate].
+    - destruct (posN r (ms_order m0)); [injection Hi as <- _; apply Hgoal | discriminate].
+  Qed.
+
+  (* ---------------------------------------------------------------- one call, a sequence of calls *)
+  (** well-formedness of a call that every [op_actions] list satisfies (proved below): stored
+      lines are Bar lines, printed lines are text lines, a println is a forced draw *)
+  Definition act_wf (a : maction) : Prop :=
+    match a with
+    | AStore _ texts bars => Forall (fun l => is_bar l = false) texts /\ Forall (fun l => is_bar l = true) bars
+    | ADraw force extra => extra_ok force extra
+    | _ => True
+    end.
+
+  Lemma act_inv now m t g c a :
+    AInv m t g -> act_wf a -> fits_act W H now m a ->
+    let r := mp_exec1 W H nofaults now m c a in
+    AInv (fst4 r) (run_ops Wn Hn t (snd (fst (fst r)))) (g_act W now m a g).
+  Proof using HW HH.
+    intros Hinv Hwf Hfit. cbv zeta. destruct a as [idx texts bars|force extra| |ws|idx|loc|idx|al|ws];
+      cbn [mp_exec1 act_wf] in *.
+    - unfold fst4. cbn [fst snd g_act]. rewrite run_ops_nil. destruct Hwf. now apply store_inv.
+    - exact (proj1 (draw_inv m t g force extra now c Hinv Hwf Hfit)).
+    - exact (proj1 (clear_inv m t g c Hinv)).
+    - pose proof (suspend_inv m t g ws now c Hinv Hfit) as Hs. cbv zeta in Hs.
+      destruct (ms_suspend W H nofaults m ws now c) as [[m' e] c']. exact (proj1 Hs).
+    - unfold fst4. cbn [fst snd g_act]. rewrite run_ops_nil. now apply remove_inv.
+    - unfold fst4. cbn [fst snd g_act]. rewrite run_ops_nil.
+      destruct (ms_insert m loc) as [[m1 i1]|] eqn:Ei; [eapply insert_inv; eauto | exact Hinv].
+    - unfold fst4. cbn [fst snd]. rewrite run_ops_nil. exact (proj1 (mark_inv m t g idx now Hinv)).
+    - unfold fst4. cbn [fst snd g_act fits_act] in *. subst al. rewrite run_ops_nil.
+      apply (AInv_core m _ t g Hinv); try reflexivity.
+      + cbn. destruct Hinv as (tg & _ & _ & Hma & _). congruence.
+      + destruct Hinv as (tg & _ & _ & _ & Ho & _). exact Ho.
+      + destruct Hinv as (tg & _ & _ & _ & _ & Hm & _). exact Hm.
+    - cbn [fits_act] in Hfit. subst ws. cbn [map]. rewrite emit_each_nofaults.
+      unfold fst4. cbn [fst snd g_act]. rewrite run_ops_nil, app_nil_r. destruct g; exact Hinv.
+  Qed.
+
+  Lemma acts_inv now : forall acts m t g c,
+    AInv m t g -> Forall act_wf acts -> fits_run W H now m c acts ->
+    let r := mp_run W H nofaults now m c acts in
+    AInv (fst (fst r)) (run_ops Wn Hn t (snd (fst r))) (g_run W H now m c acts g).
+  Proof using HW HH.
+    induction acts as [|a acts IH]; intros m t g c Hinv Hwf Hfit; cbv zeta.
+    - cbn [mp_run g_run fst snd]. rewrite run_ops_nil. exact Hinv.
+    - inversion Hwf as [|? ? Hwa Hwr]; subst. cbn [fits_run] in Hfit. destruct Hfit as [Hfa Hfr].
+      pose proof (act_inv now m t g c a Hinv Hwa Hfa) as H1. cbv zeta in H1. unfold fst4 in H1.
+      cbn [mp_run g_run].
+      destruct (mp_exec1 W H nofaults now m c a) as [[[m1 e1] c1] ok1]. cbn [fst snd] in H1.
+      specialize (IH m1 _ _ c1 H1 Hwr Hfr). cbv zeta in IH.
+      destruct (mp_run W H nofaults now m1 c1 acts) as [[m2 e2] c2]. cbn [fst snd] in *.
+      rewrite run_ops_app. exact IH.
+  Qed.
+End Screen.
+
+(* ------------------------------------------------------------------ no bar owns a terminal: preserved by every call *)
+Definition not_term (x : bar) : Prop := forall tg, b_target x <> TTerm tg.
+
+Lemma no_own_iff s : no_own_term s <-> Forall not_term (s_bars s).
+Proof.
+  unfold no_own_term, get_bar, nthN, not_term. split.
+  - intros Hn. apply Forall_forall. intros x Hin tg Htg.
+    destruct (In_nth _ _ bar_default Hin) as (n & Hlt & Hnth).
+    specialize (Hn (N.of_nat n)). rewrite Nat2N.id, Hnth, Htg in Hn. exact Hn.
+  - intros Hf b. destruct (nth_in_or_default (N.to_nat b) (s_bars s) bar_default) as [Hin|Hd].
+    + rewrite Forall_forall in Hf. specialize (Hf _ Hin).
+      destruct (b_target (nth (N.to_nat b) (s_bars s) bar_default)) as [|tg|i]; auto. exact (Hf tg eq_refl).
+    + rewrite Hd. exact I.
+Qed.
+
+Lemma Forall_updN {A} (P : A -> Prop) (f : A -> A) : (forall x, P x -> P (f x)) ->
+  forall l i, Forall P l -> Forall P (updN l i f).
+Proof.
+  intros Hf. induction l as [|x l IH]; intros i Hl; [destruct i; constructor|].
+  inversion Hl as [|? ? Hx Hl']; subst. destruct i as [|i]; cbn [updN]; constructor; auto.
+Qed.
+
+Lemma no_own_upd_gen s b f : (forall x, not_term x -> not_term (f x)) -> no_own_term s -> no_own_term (upd_bar s b f).
+Proof. intros Hf Hn. apply no_own_iff. apply no_own_iff in Hn. cbn. apply Forall_updN; assumption. Qed.
+
+Lemma no_own_keeps s b f : keeps_target f -> no_own_term s -> no_own_term (upd_bar s b f).
+Proof. intros Hf. apply no_own_upd_gen. intros x Hx tg. rewrite Hf. apply Hx. Qed.
+
+Lemma no_own_bars s s' : s_bars s' = s_bars s -> no_own_term s -> no_own_term s'.
+Proof. intros E Hn. apply no_own_iff. rewrite E. apply no_own_iff. exact Hn. Qed.
+
+Section NoOwn.
+  Variable W H : N.
+  Variable fails : N -> bool.
+
+  Lemma no_own_draw s b force now : no_own_term s -> no_own_term (fst (bar_draw W H fails s b force now)).
+  Proof.
+    intros Hn. pose proof (Hn b) as Hb. unfold bar_draw.
+    destruct (b_target (get_bar s b)) as [|tg|idx]; [exact Hn | contradiction |].
+    destruct (ms_draw W H fails _ _ None now (s_calls s)) as [[[m2 e] c'] ok]. cbn [fst].
+    eapply no_own_bars; [|exact Hn]. reflexivity.
+  Qed.
+
+  Lemma no_own_upd_draw s b f force now : keeps_target f -> no_own_term s ->
+    no_own_term (fst (bar_draw W H fails (upd_bar s b f) b force now)).
+  Proof. intros Hf Hn. apply no_own_draw, no_own_keeps; assumption. Qed.
+
+  Lemma no_own_finish s b k now : no_own_term s -> no_own_term (fst (bar_finish W H fails s b k now)).
+  Proof.
+    intros Hn. unfold bar_finish. apply no_own_upd_draw; [|exact Hn].
+    intros x. destruct k; cbn; destruct (b_len x); reflexivity.
+  Qed.
+
+  Lemma no_own_step s now o : no_own_term s -> no_own_term (step_sys W H fails s now o).
+  Proof.
+    intros Hn. unfold step_sys.
+    destruct o; cbn [step fst];
+      try (apply no_own_upd_draw; [intros x; reflexivity | exact Hn]);
+      try (apply no_own_draw; exact Hn); try (apply no_own_finish; exact Hn);
+      try (apply no_own_keeps; [intros x; reflexivity | exact Hn]);
+      try exact Hn.
+    all: try (unfold bar_pos_update;
+      match goal with |- context [ap_allow ?a ?b] => destruct (ap_allow a b) as [[|] ap'] end;
+      [ unfold bar_tick; apply no_own_upd_draw; [intros x; reflexivity|];
+        apply no_own_keeps; [intros x; reflexivity|]; apply no_own_keeps; [intros x; reflexivity | exact Hn]
+      | cbn [fst]; apply no_own_keeps; [intros x; reflexivity|]; apply no_own_keeps; [intros x; reflexivity | exact Hn] ]).
+    - (* OPrintln *)
+      pose proof (Hn b) as Hb. unfold bar_println.
+      destruct (b_target (get_bar s b)) as [|tg|idx]; [exact Hn | contradiction |].
+      destruct (ms_draw W H fails _ true None now (s_calls s)) as [[[m2 e] c'] ok]. cbn [fst].
+      eapply no_own_bars; [|exact Hn]. reflexivity.
+    - (* OSuspend *)
+      pose proof (Hn b) as Hb. unfold bar_suspend.
+      destruct (b_target (get_bar s b)) as [|tg|idx]; [| contradiction |].
+      + destruct (emit_each fails (s_calls s) (map TLine ws)) as [e c']. eapply no_own_bars; [|exact Hn]. reflexivity.
+      + destruct (ms_suspend W H fails (s_mp s) ws now (s_calls s)) as [[m2 e] c'].
+        eapply no_own_bars; [|exact Hn]. reflexivity.
+    - (* ODrop *)
+      unfold bar_drop.
+      assert (Hs1 : no_own_term (fst (if finished (get_bar s b) then (s, [])
+                                       else bar_finish W H fails s b (b_on_finish (get_bar s b)) now))).
+      { destruct (finished (get_bar s b)); [exact Hn | apply no_own_finish; exact Hn]. }
+      destruct (if finished (get_bar s b) then (s, []) else bar_finish W H fails s b (b_on_finish (get_bar s b)) now) as [s1 e].
+      cbn [fst] in *. apply no_own_keeps; [intros x; reflexivity|].
+      unfold mark_zombie. destruct (b_target (get_bar s1 b)); exact Hs1.
+    - (* OInsert *)
+      assert (Hgen : forall m1 idx, no_own_term (fst (bar_set_target W H fails (set_s_mp s m1) b (TMulti idx) now))).
+      { intros m1 idx. unfold bar_set_target.
+        match goal with |- context [let '(s1, e) := ?x in _] => assert (Hs1 : no_own_term (fst x)); [|destruct x as [s1 e]] end.
+        { destruct (b_target (get_bar (set_s_mp s m1) b)); try (eapply no_own_bars; [|exact Hn]; reflexivity).
+          destruct (ms_draw W H fails _ true None now _) as [[[m2 e] c'] ok]. cbn [fst].
+          eapply no_own_bars; [|exact Hn]. reflexivity. }
+        cbn [fst] in *. apply no_own_upd_gen; [|exact Hs1]. intros x _ tg. cbn. discriminate. }
+      destruct loc as [|i|i|r|r]; try destruct (b_target (get_bar s r)); try exact Hn;
+        (destruct (ms_insert (s_mp s) _) as [[m1 idx1]|]; [cbn [fst]; apply Hgen | exact Hn]).
+    - (* ORemove *)
+      destruct (b_target (get_bar s b)) as [|tg|idx]; try exact Hn.
+      match goal with |- context [ms_draw W H fails ?a ?b ?c ?d ?e] => destruct (ms_draw W H fails a b c d e) as [[[m2 e'] c'] ok] end.
+      cbn [fst].
+      assert (H1 : no_own_term (upd_bar s b (fun x => set_b_target x THidden))).
+      { apply no_own_upd_gen; [|exact Hn]. intros x _ tg'. cbn. discriminate. }
+      eapply no_own_bars; [|exact H1]. reflexivity.
+    - (* OMPrintln *)
+      destruct (ms_draw W H fails (s_mp s) true _ now (s_calls s)) as [[[m2 e] c'] ok].
+      eapply no_own_bars; [|exact Hn]. reflexivity.
+    - destruct (ms_suspend W H fails (s_mp s) ws now (s_calls s)) as [[m2 e] c'].
+      eapply no_own_bars; [|exact Hn]. reflexivity.
+    - destruct (ms_clear W H fails (s_mp s) (s_calls s)) as [[[m2 e] c'] ok].
+      eapply no_own_bars; [|exact Hn]. reflexivity.
+  Qed.
+End NoOwn.
+
+(* ------------------------------------------------------------------ every public call makes well-formed MultiState calls *)
+Lemma stored_frame_bars W m br : Forall (fun l => is_bar l = true) (stored_frame W m br).
+Proof. unfold stored_frame. destruct (ms_width W m); [apply frame_of_bars | constructor]. Qed.
+
+Lemma draw_actions_wf W s b force : Forall act_wf (draw_actions W s b force).
+Proof.
+  unfold draw_actions. destruct (b_target (get_bar s b)); try constructor.
+  - cbn. split; [constructor | apply stored_frame_bars].
+  - constructor; [exact I | constructor].
+Qed.
+
+Lemma mp_println_texts m :
+  Forall (fun l => is_bar l = false)
+         (match m with [] => [mkline KEmpty []] | _ => map (mkline KText) (lines_of m) end).
+Proof.
+  destruct m as [|c r]; [repeat constructor|].
+  apply Forall_forall. intros l Hin. apply in_map_iff in Hin. destruct Hin as (y & <- & _). reflexivity.
+Qed.
+
+Lemma op_actions_wf W s now o : Forall act_wf (op_actions W s now o).
+Proof.
+  destruct o; cbn [op_actions]; try apply draw_actions_wf; try constructor.
+  all: try (unfold pos_actions;
+            match goal with |- context [ap_allow ?a ?b] => destruct (ap_allow a b) as [[|] ap'] end;
+            [apply draw_actions_wf | constructor]).
+  - (* OPrintln *) destruct (b_target (get_bar s b)); try constructor.
+    + cbn. split; [apply text_lines_texts | apply stored_frame_bars].
+    + constructor; [exact I | constructor].
+  - (* OSuspend *) destruct (b_target (get_bar s b)); repeat constructor.
+  - (* ODrop *) apply Forall_app. split.
+    + destruct (finished (get_bar s b)); [constructor | apply draw_actions_wf].
+    + destruct (b_target (get_bar s b)); repeat constructor.
+  - (* OInsert *)
+    match goal with |- Forall _ (match ?x with Some l => _ | None => _ end) => destruct x as [l|] end; [|constructor].
+    destruct (ms_insert (s_mp s) l); [|constructor].
+    constructor; [exact I|]. destruct (b_target (get_bar s b)); repeat constructor.
+  - (* ORemove *) destruct (b_target (get_bar s b)); repeat constructor.
+  - (* OMPrintln *) cbn. split; [reflexivity | apply mp_println_texts].
+  - constructor.
+  - exact I.
+  - constructor.
+  - exact I.
+  - constructor.
+  - exact I.
+  - constructor.
+Qed.
+
+(* ------------------------------------------------------------------ every history *)
+Section History.
+  Variable W H : N.
+  Hypothesis HW : 1 <= W.
+  Hypothesis HH : 1 <= H.
+  Variable pre : list (list N).
+  Let Wn := N.to_nat W.
+  Let Hn := N.to_nat H.
+
+  Definition SInv (st : sys * mghost * term) : Prop :=
+    no_own_term (fst (fst st)) /\ AInv W H pre (s_mp (fst (fst st))) (snd st) (snd (fst st)).
+
+  Lemma ms_step_sys s g t x :
+    fst (fst (ms_step W H (s, g, t) x)) = fst (fst (step W H nofaults s (fst x) (snd x))).
+  Proof. unfold ms_step. destruct (step W H nofaults s (fst x) (snd x)) as [[s' e] r]. reflexivity. Qed.
+
+  (** INV is preserved by every public call *)
+  Lemma ms_step_inv s g t now o :
+    SInv (s, g, t) -> fits_run W H now (s_mp s) (s_calls s) (op_actions W s now o) ->
+    SInv (ms_step W H (s, g, t) (now, o)).
+  Proof using HW HH.
+    intros [Hno Hinv] Hfit. unfold ms_step. cbn [fst snd] in *.
+    pose proof (step_mp W H nofaults s now o) as [Hmp Hout]. specialize (Hout Hno). destruct Hout as [_ Hout].
+    pose proof (no_own_step W H nofaults s now o Hno) as Hno'.
+    unfold step_sys, step_out in *.
+    destruct (step W H nofaults s now o) as [[s' e] ok]. cbn [fst snd] in *.
+    split; [exact Hno'|]. cbn [fst snd]. rewrite Hmp, Hout.
+    apply (acts_inv W H HW HH pre now); [exact Hinv | apply op_actions_wf | exact Hfit].
+  Qed.
+
+  Lemma ms_run_inv : forall h s g t,
+    SInv (s, g, t) -> FitsAll W H s h -> SInv (ms_run W H (s, g, t) h).
+  Proof using HW HH.
+    induction h as [|[now o] h IH]; intros s g t Hinv Hfit; [exact Hinv|].
+    unfold ms_run. cbn [fold_left]. fold (ms_run W H).
+    cbn [FitsAll fst snd] in Hfit. destruct Hfit as [Hf1 Hf2].
+    pose proof (ms_step_inv s g t now o Hinv Hf1) as Hinv'.
+    pose proof (ms_step_sys s g t (now, o)) as Hsys. cbn [fst snd] in Hsys.
+    destruct (ms_step W H (s, g, t) (now, o)) as [[s' g'] t']. cbn [fst snd] in Hsys. subst s'.
+    apply IH; assumption.
+  Qed.
+
+  Lemma ms_initial_inv s0 t0 : ms_initial s0 -> ready Wn Hn pre t0 -> SInv (s0, mghost0, t0).
+  Proof.
+    intros (Hno & tg & Ht & Hn0 & Hal & Hbel & Hma & Horph & Hz & Hmb) Hr.
+    split; [exact Hno|]. cbn [fst snd].
+    exists tg. split; [exact Ht|]. split; [exact Hal|]. split; [exact Hma|].
+    split; [rewrite Horph; constructor|]. split; [exact Hmb|].
+    exists [], [], []. cbn [mghost0 mg_log mg_kept mg_live app length]. rewrite app_nil_r, Hn0, Hz, Hbel.
+    split; [exact Hr|]. split; [apply rows_equiv_refl|]. split; [apply rows_equiv_refl|].
+    split; [apply rows_equiv_refl|]. split; [reflexivity|]. split; [reflexivity|]. split; [cbn; lia|].
+    split; [discriminate | intros _ Hge; lia].
+  Qed.
+
+  Theorem ms_invariant s0 t0 h :
+    ms_initial s0 -> ready Wn Hn pre t0 -> FitsAll W H s0 h ->
+    SInv (ms_run W H (s0, mghost0, t0) h).
+  Proof using HW HH.
+    intros Hi Hr Hf. apply ms_run_inv; [apply ms_initial_inv; assumption | exact Hf].
+  Qed.
+
+  (** C02_screen: the screen equation and the cursor clause after every history *)
+  Theorem c02_screen s0 t0 h :
+    ms_initial s0 -> ready Wn Hn pre t0 -> FitsAll W H s0 h ->
+    let g := snd (fst (ms_run W H (s0, mghost0, t0) h)) in
+    let t := snd (ms_run W H (s0, mghost0, t0) h) in
+    (exists k, screen Wn t = map (pad Wn) (ms_expected W pre g) ++ repeat (repeat SP Wn) k)
+    /\ next_cell Wn t = (length (ms_expected W pre g), 0%nat).
+  Proof using HW HH.
+    intros Hi Hr Hf. cbv zeta.
+    pose proof (ms_invariant s0 t0 h Hi Hr Hf) as [_ Hinv].
+    destruct (ms_run W H (s0, mghost0, t0) h) as [[s g] t]. cbn [fst snd] in *.
+    destruct Hinv as (tg & _ & _ & _ & _ & _ & L & K & F & Hready & HL & HK & HF & _).
+    assert (HWn : (1 <= Wn)%nat) by (unfold Wn; lia).
+    unfold ms_expected. fold Wn. split.
+    - destruct (ready_all_rows _ _ _ _ Hready) as (k & Hall). exists k.
+      unfold screen. rewrite Hall. rewrite !map_app. unfold rows_equiv in HL, HK, HF. rewrite HL, HK, HF.
+      rewrite map_repeat', pad_nil. now rewrite <- !app_assoc.
+    - rewrite (ready_row _ _ _ _ HWn Hready). rewrite !app_length.
+      now rewrite (rows_equiv_length _ _ _ HL), (rows_equiv_length _ _ _ HK), (rows_equiv_length _ _ _ HF).
+  Qed.
+End History.
